@@ -177,6 +177,8 @@ def gen_expr(rng, ids, depth=3, size=32):
                 slots.append([r_int(rng.choice(BOUNDARY), b - a), a, b])
             else:
                 slots.append([['S', rng.choice(ids), a, b], a, b])
+        if rng.random() < 0.4:
+            rng.shuffle(slots)          # slot order as a caller may write it (e.g. movzx is lifted high part first)
         return ['C', slots]
     if k < 0.75:
         # compose of a low part and a high part
